@@ -1,9 +1,17 @@
 package endblock
 
 import (
+	"encoding/json"
+	"fmt"
+	"math/rand"
+	"os"
+	"strconv"
 	"testing"
 
+	sdk "github.com/cosmos/cosmos-sdk/types"
+
 	"verifharness/graph"
+	"verifharness/world"
 )
 
 func TestReplay(t *testing.T) {
@@ -18,4 +26,179 @@ func TestPath(t *testing.T) {
 	graph.Const(&c)
 	a := New(t, c)
 	graph.RunPath(t, a, a.W.Ctx)
+}
+
+func envInt(k string, def int) int {
+	if s := os.Getenv(k); s != "" {
+		if v, err := strconv.Atoi(s); err == nil {
+			return v
+		}
+	}
+	return def
+}
+
+// samplePath is a seeded random walk over the accepted edges of the specification's graph (block ends
+// are taken with weight 3 so that objects age beyond the signed window on most paths).
+func samplePath(g *graph.Graph, rng *rand.Rand, maxLen int) []*graph.Edge {
+	var path []*graph.Edge
+	state := g.Init
+	for len(path) < maxLen && g.Expanded[state] {
+		var cand []*graph.Edge
+		for _, e := range g.Out[state] {
+			if e.Op.Res() != "ok" {
+				continue
+			}
+			w := 1
+			if e.Op.Name() == "Tick" {
+				w = 3
+			}
+			for i := 0; i < w; i++ {
+				cand = append(cand, e)
+			}
+		}
+		if len(cand) == 0 {
+			break
+		}
+		e := cand[rng.Intn(len(cand))]
+		path = append(path, e)
+		state = e.To
+	}
+	return path
+}
+
+func opNoRes(op graph.Op) graph.Op {
+	o := graph.Op{}
+	for k, v := range op {
+		if k != "res" {
+			o[k] = v
+		}
+	}
+	return o
+}
+
+func opWithRes(op graph.Op, res string) graph.Op {
+	o := opNoRes(op)
+	o["res"] = res
+	return o
+}
+
+// TestBlocks replays sampled paths of the specification through REAL blocks (FinalizeBlock + Commit via
+// world.Block) on a fresh chain each, and, on a branch of the same chain, through the emulation of block
+// boundaries graph replay uses (EndBlocker / PreBlocker / BeginBlocker on a cache context).  The two real
+// behaviours must agree step by step (otherwise the emulation is not faithful: the test fails); the
+// real-block behaviour is written to VERIF_TRACES so that TLC evaluates the C07 formulas on it (a block
+// that fails is recorded as Tick with res "rej"), and is compared with the specification's states.
+func TestBlocks(t *testing.T) {
+	var c Consts
+	graph.Const(&c)
+	g, err := graph.Load(os.Getenv("VERIF_EDGES"))
+	if err != nil {
+		t.Fatalf("load edges: %v", err)
+	}
+	out, err := os.Create(os.Getenv("VERIF_TRACES"))
+	if err != nil {
+		t.Fatal(err)
+	}
+	defer out.Close()
+	nPaths, maxLen := envInt("VERIF_PATHS", 8), envInt("VERIF_PATHLEN", 16)
+	shard, shards := envInt("VERIF_SHARD", 0), envInt("VERIF_SHARDS", 1)
+	rng := rand.New(rand.NewSource(world.Seed()*1000 + int64(shard)))
+	st := map[string]any{}
+	var paths, steps, blocks, emuMismatch, modelMismatch, blockFailures int
+	var firstEmu, firstModel, firstFailure string
+	for p := 0; p < nPaths; p++ {
+		path := samplePath(g, rng, maxLen)
+		if len(path) == 0 {
+			continue
+		}
+		_ = shards
+		paths++
+		a := New(t, c)
+		init := a.Project(a.W.Ctx)
+		if graph.CanonV(init) != g.Init {
+			t.Fatalf("initial state mismatch:\n real %s\n spec %s", graph.CanonV(init), g.Init)
+		}
+		// 1. the emulation, on a branch (nothing is written to the chain)
+		var emu []string
+		cur, _ := a.W.Ctx.CacheContext()
+		for _, e := range path {
+			var res string
+			cur, res = a.Apply(cur, opNoRes(e.Op))
+			emu = append(emu, res+" "+graph.CanonV(a.Project(cur)))
+			if res != "ok" && e.Op.Name() == "Tick" {
+				break
+			}
+		}
+		// 2. real blocks.  Messages of the block about to be finalized see its height and its time.
+		ctxOf := func() sdk.Context { return a.W.Ctx.WithBlockTime(a.W.Ctx.BlockTime().Add(BlockTime)) }
+		var trace []graph.Step
+		var lastGood any = init
+		for i, e := range path {
+			op := opNoRes(e.Op)
+			res := "ok"
+			halted := false
+			if op.Name() == "Tick" {
+				for k := int64(0); k < op.Int("n"); k++ {
+					blocks++
+					if _, err := a.W.Block(BlockTime); err != nil {
+						res, halted = "rej", true
+						blockFailures++
+						if firstFailure == "" {
+							firstFailure = fmt.Sprintf("path %d step %d: %v", p, i, err)
+						}
+						break
+					}
+					lastGood = a.Project(ctxOf())
+				}
+			} else if err := a.ApplyMsg(ctxOf(), op); err != nil {
+				res = "rej"
+			}
+			steps++
+			// a block that failed was not committed: the chain stays at the state before it
+			post := lastGood
+			if !halted {
+				post = a.Project(ctxOf())
+				lastGood = post
+			}
+			trace = append(trace, graph.Step{Op: opWithRes(op, res), St: post})
+			got := res + " " + graph.CanonV(post)
+			if i < len(emu) && got != emu[i] {
+				emuMismatch++
+				if firstEmu == "" {
+					firstEmu = fmt.Sprintf("path %d step %d op %v:\n real blocks %s\n emulation   %s", p, i, op, got, emu[i])
+				}
+			}
+			if got != "ok "+e.To {
+				modelMismatch++
+				if firstModel == "" {
+					firstModel = fmt.Sprintf("path %d step %d op %v:\n real blocks %s\n spec        ok %s", p, i, op, got, e.To)
+				}
+			}
+			if halted {
+				break
+			}
+		}
+		b, _ := json.Marshal(map[string]any{"trace": trace, "why": "real blocks", "init": init})
+		out.Write(append(b, '\n'))
+	}
+	st["paths"], st["steps"], st["blocks"] = paths, steps, blocks
+	st["emulation_mismatches"], st["model_mismatches"], st["block_failures"] = emuMismatch, modelMismatch, blockFailures
+	st["first_emulation_mismatch"], st["first_model_mismatch"], st["first_block_failure"] = firstEmu, firstModel, firstFailure
+	b, _ := json.MarshalIndent(st, "", " ")
+	if p := os.Getenv("VERIF_STATS"); p != "" {
+		if e := os.WriteFile(p, b, 0o644); e != nil {
+			t.Fatal(e)
+		}
+	}
+	fmt.Printf("blocks: paths=%d steps=%d blocks=%d emulation_mismatches=%d model_mismatches=%d block_failures=%d\n",
+		paths, steps, blocks, emuMismatch, modelMismatch, blockFailures)
+	if firstFailure != "" {
+		fmt.Println("first block failure:", firstFailure)
+	}
+	if firstModel != "" {
+		fmt.Println("first model mismatch:", firstModel)
+	}
+	if emuMismatch > 0 {
+		t.Fatalf("branch emulation of block boundaries disagrees with real FinalizeBlock+Commit: %s", firstEmu)
+	}
 }
